@@ -503,7 +503,7 @@ def _any_batched(case):
 
 DIAGISH = {"Diag", "ConstantDiag", "Identity", "KroneckerDiag"}
 
-BATCHED_CONST_BAD = {"Tri", "ConstantDiag", "Identity", "BlockInterleaved", "BlockDiag", "SumBatch", "AddedDiag", "Mul", "LowRankRootAddedDiag", "Chol", "Zero"}
+BATCHED_CONST_BAD = {"BlockInterleaved", "BlockDiag", "SumBatch", "Zero"}
 GETITEM_OPEN = {"Kernel", "Matmul", "BatchRepeat", "BlockDiag", "BlockInterleaved", "Cat", "TransposePermutation"}
 
 def _squeeze_step(c):
